@@ -93,6 +93,49 @@ pub fn corr_sets(ctx: &mut Ctx) {
     }
 }
 
+/// pre-hashed items through the crate's `NoHashHasher` (a documented use): hashes are chosen, in particular 0, u64::MAX
+/// and other extreme values, at the head or inside a slice; slice / chunked / item-wise must agree with each other
+/// and with the model (which takes the hash itself)
+pub fn corr_sets_nohash(ctx: &mut Ctx) {
+    use probminhash::nohasher::NoHashHasher;
+    type SN16 = SetSketcher<u16, u64, NoHashHasher>;
+    let mk = |p: (f64, u64, f64, u64)| SN16::new(SetSketchParams::new(p.0, p.1, p.2, p.3), BuildHasherDefault::<NoHashHasher>::default());
+    let ncases = ctx.n(40, 400);
+    for c in 0..ncases {
+        let mut rng = ctx.rng.fork();
+        let p = params_pool(&mut rng, c);
+        let n = [1usize, 2, 3, 5, 17, 64][c as usize % 6];
+        // items: extremes first (c % 3 == 0), extremes inside (1), random (2)
+        let mut items: Vec<u64> = Vec::new();
+        let ext = crate::c04::EXTREME_ITEMS;
+        let mut seen = std::collections::HashSet::new();
+        let push = |x: u64, items: &mut Vec<u64>, seen: &mut std::collections::HashSet<u64>| { if seen.insert(x) { items.push(x); } };
+        if c % 3 == 0 { push(ext[(c as usize / 3) % ext.len()], &mut items, &mut seen); }
+        while items.len() < n {
+            if c % 3 == 1 && items.len() == n / 2 { push(ext[(c as usize / 3) % ext.len()], &mut items, &mut seen); continue; }
+            push(rng.next(), &mut items, &mut seen);
+        }
+        ctx.begin_case(&format!("ssk nohash b={} m={} n={} extreme={}", p.0, p.1, n, ["head", "inside", "none"][c as usize % 3]));
+        ctx.mark_nontrivial();
+        ctx.count("ssk hasher=NoHashHasher (chosen hash values)");
+        ctx.op(&newop("a", p, u16::MAX as u64));
+        for x in &items { ctx.op(&format!("ssk sk a {}", hx(hash_with::<NoHashHasher, u64>(x)))); }
+        let dump = |s: &SN16| { let (lk, nbmin) = s.verif_state(); let kv: Vec<u64> = s.get_signature().iter().map(|x| *x as u64).collect(); format!("{} | {} {} {}", join(&kv), lk as u64, nbmin, s.get_nb_overflow()) };
+        let whole = catch(std::panic::AssertUnwindSafe(|| { let mut s = mk(p); s.sketch_slice(&items).unwrap(); dump(&s) }));
+        let itemwise = catch(std::panic::AssertUnwindSafe(|| { let mut s = mk(p); for x in &items { s.sketch(x).unwrap(); } dump(&s) }));
+        let singles = catch(std::panic::AssertUnwindSafe(|| { let mut s = mk(p); for x in &items { s.sketch_slice(std::slice::from_ref(x)).unwrap(); } dump(&s) }));
+        let cut = items.len() / 2;
+        let chunked = catch(std::panic::AssertUnwindSafe(|| { let mut s = mk(p); if cut > 0 { s.sketch_slice(&items[..cut]).unwrap(); } s.sketch_slice(&items[cut..]).unwrap(); dump(&s) }));
+        ctx.line("ssk dump a", itemwise.as_deref().unwrap_or("PANIC"));
+        for (name, r) in [("one slice", &whole), ("one-element slices", &singles), ("two chunks", &chunked)] {
+            if r != &itemwise || r.is_err() {
+                ctx.oracle_failure(serde_json::json!({"kind":"impl_violates_property","what":format!("SetSketcher<NoHashHasher>: {} differs from item-wise sketch", name),"params":format!("{:?}",p),
+                    "items":items.iter().take(20).map(|x| hx(*x)).collect::<Vec<_>>(),"slice":r.clone().unwrap_or("PANIC".into()).chars().take(120).collect::<String>(),"itemwise":itemwise.clone().unwrap_or("PANIC".into()).chars().take(120).collect::<String>()}));
+            }
+        }
+    }
+}
+
 /// merge histories: chains of sketchers merged in random bracketings, further streaming after a merge,
 /// parameter mismatches (state must be unchanged), reinit
 pub fn corr_merge(ctx: &mut Ctx) {
